@@ -9,6 +9,7 @@ use crate::sched;
 use crate::lockstep;
 use crate::progsweep;
 use crate::docsweep;
+use crate::cont;
 use crate::seqx::Out;
 use serde_json::{json, Value};
 
@@ -227,6 +228,24 @@ pub fn plan(prop: &str, tier: &str) -> Option<Plan> {
                 "the last clause of the property (no safe program can race on a payload) is the standard meaning of Send/Sync and is not separately explored".into(),
             ],
         }),
+        "C18" => {
+            let params = if tier == "quick" {
+                json!({"max_edges": 2, "max_depth": 4, "seeds": [0, 1, 2], "dot_attr_max_edges": 1})
+            } else {
+                json!({"max_edges": 3, "max_depth": 7, "seeds": [0, 1, 2, 3, 4, 5, 6, 7], "dot_attr_max_edges": 2})
+            };
+            Some(Plan {
+                jobs: ALL.iter().map(|f| job(prop, "cont", f, tier, params.clone())).collect(),
+                level: "model_checking".into(),
+                rule: "BFS over (member map, adjacency) states reached by histories of insert (5 node objects: 3 graph nodes and 2 same-key impostors with different values), remove, and connect/try_connect/disconnect/isolate applied through handles taken from the container (get / index alternating) or, for non-members, the program's own handles; after every step every view (contains, len, is_empty, get, index, to_vec, iter, roots, leaves, orphans) is compared with a map model plus the reference adjacency, return values of insert/remove with the model, edge operations with the C03 contract observed through the program's own handles (identity), and the DOT exports are parsed statement by statement (to_dot on every state and every hash seed, to_dot_with_attr for all 4^3 callback combinations on small states); the three constructors are compared on the empty container. evaluations = histories executed".into(),
+                bounds: params.clone(),
+                exhaustive: true,
+                assumptions: vec![
+                    "indexing an absent key panics by HashMap's contract and is outside the property".into(),
+                    "impostor nodes (same key, other value) never take part in edges: the edge contract presupposes distinct keys among neighbours".into(),
+                ],
+            })
+        }
         "C17" => {
             let known = KnownFindings::load(&format!("{}/known_findings.json", crate::verif_dir()));
             let mut jobs = Vec::new();
@@ -278,6 +297,7 @@ pub fn work(job: &Job, out: &mut Out) {
         "csweep" => crate::with_flavor!(job.flavour.as_str(), F => csweep::sweep::<F>(job, out)),
         "sched" => crate::with_sync_flavor!(job.flavour.as_str(), F => sched::sweep::<F>(job, out)),
         "docsweep" => docsweep::sweep(job, out),
+        "cont" => crate::with_flavor!(job.flavour.as_str(), F => cont::explore::<F>(job, out)),
         "progsweep" => match job.property.as_str() {
             "C16" => progsweep::c16(job, out),
             "C14" => progsweep::c14(job, out),
@@ -299,6 +319,7 @@ pub fn replay(property: &str, engine: &str, flavour: &str, case: &Value) -> Vec<
         "csweep" => crate::with_flavor!(flavour, F => csweep::replay::<F>(property, case)),
         "sched" => crate::with_sync_flavor!(flavour, F => sched::replay::<F>(property, case)),
         "docsweep" => docsweep::replay(property, case),
+        "cont" => crate::with_flavor!(flavour, F => cont::replay::<F>(property, case)),
         "progsweep" => match property {
             "C16" => progsweep::replay_c16(property, case),
             "C14" => progsweep::replay_c14(property, case),
